@@ -78,8 +78,11 @@ def build_locus(name, delta):
     return gi
 
 
+MIN_ABSENCE_OVERLAP = 20
+
+
 def params_for(delta):
-    return Obj(delta=delta, minimal_intron_absence_overlap=20, minimal_exon_overlap=5, count_exons=True)
+    return Obj(delta=delta, minimal_intron_absence_overlap=MIN_ABSENCE_OVERLAP, minimal_exon_overlap=5, count_exons=True)
 
 
 def matched(r, f, d):
@@ -111,7 +114,7 @@ def h_feature_table(locus, delta):
     return fn
 
 
-def h_recount(locus, delta, k, grouped, anchored=False):
+def h_recount(locus, delta, k, grouped, anchored=False, tails=False):
     def fn(g):
         g.batch = True
         gi = build_locus(locus, delta)
@@ -126,7 +129,13 @@ def h_recount(locus, delta, k, grouped, anchored=False):
         for i in range(k - 1):
             g.add(blocks[i + 1][0] - blocks[i][1] - 1 > 2 * d)
         pc = lrp.CombinedProfileConstructor(gi, params_for(d))
-        prof = call(g, pc.construct_profiles, blocks, PolyAInfo(-1, -1, -1, -1), [])
+        info = PolyAInfo(-1, -1, -1, -1)
+        if tails:
+            # a polyA tail right after the read's last base and / or a polyT head right before its first one
+            tail = g.choice("tails", 3 if tails == "light" else 4)
+            info = PolyAInfo(blocks[-1][1] + g.int("polya_offset", 1, 10) if tail & 1 else -1,
+                             blocks[0][0] - g.int("polyt_offset", 1, 10) if tail & 2 else -1, -1, -1)
+        prof = call(g, pc.construct_profiles, blocks, info, [])
         groups = ["gA", "gB"]
         grp = groups[g.choice("read_group", 2)] if grouped else "NA"
         ra = Obj(exon_gene_profile=prof.read_exon_profile.gene_profile, intron_gene_profile=prof.read_intron_profile.gene_profile,
@@ -168,7 +177,10 @@ def h_recount(locus, delta, k, grouped, anchored=False):
                     # "an exon lying between the read's first and last exon"
                     may = OR(AND(blocks[0][1] < f[0], f[1] < blocks[-1][0]), any_match)   # non-closest candidates are marked absent
                 else:
-                    must = AND(NOT(any_match), span[0] <= f[0], f[1] <= span[1])
+                    # "an intron overlapped by the read's span": demanded from the code's own threshold (minimal_intron_absence_overlap) on
+                    long_overlap = AND(span[1] - f[0] + 1 >= MIN_ABSENCE_OVERLAP, f[1] - span[0] + 1 >= MIN_ABSENCE_OVERLAP,
+                                       span[1] - span[0] + 1 >= MIN_ABSENCE_OVERLAP, f[1] - f[0] + 1 >= MIN_ABSENCE_OVERLAP)
+                    must = AND(NOT(any_match), OR(AND(span[0] <= f[0], f[1] <= span[1]), long_overlap))
                     may = OR(AND(span[0] <= f[1], f[0] <= span[1]), any_match)
                 g.check(IMPLIES(must, exc == 1), "exclude when the read spans the feature without containing it", detail=det)
                 g.check(IMPLIES(exc == 1, may), "exclude only for features covered by the read", detail=det)
@@ -203,8 +215,8 @@ def instances(tier, seed):
                 grouped = (li + k + seed) % 2 == 0 if q else None
                 for gr in ([grouped] if q else ([False, True] if k == 1 else [li == 0])):
                     out.append(Instance("recount[%s,delta=%d,exons=%d,%s]" % (locus, delta, k, "grouped" if gr else "ungrouped"),
-                                        h_recount(locus, delta, k, gr), F,
-                                        "locus %s, read with %d exons of free coordinates, delta=%d" % (locus, k, delta),
+                                        h_recount(locus, delta, k, gr, False, "light" if q else True), F,
+                                        "locus %s, read with %d exons of free coordinates, with/without polyA tail and polyT head, delta=%d" % (locus, k, delta),
                                         weight=30 ** k, budget_s=2400))
     from props import c09
     for n in ((2,) if q else (2, 3)):
